@@ -174,6 +174,40 @@ pub fn check_extreme(c: &ExtremeCase) -> CheckResult {
     Ok(CaseInfo::new(true).class(ty.name()).class(if c.ones { "field=MAX" } else { "field=0" }))
 }
 
+/// very many seeds, construction plus a few outputs only: a checked addition inside a key set-up
+/// overflows for one seed in 2^16 .. 2^20 — volume, not structure, finds it
+#[derive(Clone, Debug, Serialize, Deserialize)]
+pub struct ManySeedsCase {
+    pub ty: Ty,
+    pub start: u64,
+    pub count: u32,
+}
+
+pub fn check_many_seeds(c: &ManySeedsCase) -> CheckResult {
+    let len = c.ty.info().seed_len;
+    let mut seed = vec![0u8; len];
+    for k in 0..c.count as u64 {
+        let mut z = c.start.wrapping_add(k).wrapping_mul(0x9e3779b97f4a7c15);
+        for chunk in seed.chunks_mut(8) {
+            z = z.wrapping_add(0x9e3779b97f4a7c15);
+            let mut x = z;
+            x = (x ^ (x >> 30)).wrapping_mul(0xbf58476d1ce4e5b9);
+            x = (x ^ (x >> 27)).wrapping_mul(0x94d049bb133111eb);
+            x ^= x >> 31;
+            let n = chunk.len();
+            chunk.copy_from_slice(&x.to_le_bytes()[..n]);
+        }
+        let r = catch(|| {
+            let mut g = adapter::from_seed(c.ty, &seed);
+            (g.next_u32(), g.next_u64())
+        });
+        if let Caught::Panic(rec) = r {
+            return Err(Fail::new(panic_signature(&rec), format!("from_seed / first outputs panicked for seed {} (number {} of the batch): {}", crate::hexser::hex(&seed), k, rec)));
+        }
+    }
+    Ok(CaseInfo::new(c.count > 0).class("many-seeds-construction"))
+}
+
 /// A constructor fed by a source that starts with very many all-zero blocks, executed in a child
 /// process on a thread with a small stack: recursion instead of a loop in a redraw path overflows
 /// the stack, which no `catch_unwind` can see (the process is killed by a signal).
@@ -195,7 +229,7 @@ pub fn deep_ctor_main() {
         .stack_size(c.stack_kib.max(64) * 1024)
         .spawn(move || {
             let len = c.ty.info().seed_len;
-            let spec = crate::src::SrcSpec { prefix: vec![0u8; c.zero_blocks * len], salt: 5, words_differ: false };
+            let spec = crate::src::SrcSpec { prefix: vec![0u8; c.zero_blocks * len], salt: 5, words_differ: false, call_block: 0 };
             let mut g = if c.try_route {
                 match adapter::try_from_rng(c.ty, &mut crate::src::FailSrc::new(spec, None, 7)) {
                     Ok(g) => g,
@@ -431,6 +465,15 @@ pub fn def(ctx: &Ctx) -> PropDef {
     }
     // a stuck timer for a very long time that then recovers: retry counters of any width up to
     // 2^16 wrap (70 000 consecutive stuck measurements = 210 000 equal readings)
+    // 2^18 (thorough 2^24) dense seeds per type: construction and the first outputs
+    for ty in Ty::ALL {
+        subs.push(PSub::boxed(
+            format!("many-seeds/{}", ty.name()),
+            t.pick(64, 4096),
+            move || any::<u64>().prop_map(move |start| ManySeedsCase { ty, start, count: 4096 }).boxed(),
+            check_many_seeds,
+        ));
+    }
     subs.push(PSub::boxed(
         "jitter/nested-timer",
         t.pick(300, 30_000),
